@@ -27,6 +27,17 @@ func main() { cli.Main("C05", runC05) }
 type op struct {
 	write bool
 	v     float64
+	ex    bool // through ObserveWithExemplar
+}
+
+var exLabels = prometheus.Labels{"trace": "t"}
+
+func observe(h prometheus.Histogram, o op) {
+	if o.ex {
+		h.(prometheus.ExemplarObserver).ObserveWithExemplar(o.v, exLabels)
+	} else {
+		h.Observe(o.v)
+	}
 }
 
 type obsRec struct {
@@ -45,6 +56,7 @@ type cfg struct {
 	maxB    uint32
 	maxZT   float64
 	classic []float64
+	maxEx   int // NativeHistogramMaxExemplars: 0 default (10), <0 disabled
 }
 
 func decode(spans []*dto.BucketSpan, deltas []int64) string {
@@ -79,9 +91,12 @@ func scrape(h prometheus.Histogram) (s string, panicked bool) {
 
 func expoOf(m *dto.Metric) string {
 	hh := m.Histogram
-	cum := make([]string, len(hh.Bucket))
-	for i, b := range hh.Bucket {
-		cum[i] = emit.U(b.GetCumulativeCount())
+	cum := make([]string, 0, len(hh.Bucket))
+	for _, b := range hh.Bucket {
+		if math.IsInf(b.GetUpperBound(), 1) {
+			continue // the explicit +Inf bucket only exists to carry an exemplar (C02/C03 check its count)
+		}
+		cum = append(cum, emit.U(b.GetCumulativeCount()))
 	}
 	return emit.Tup(emit.Z(int64(hh.GetSchema())), emit.F(hh.GetZeroThreshold()), emit.U(hh.GetZeroCount()), emit.U(hh.GetSampleCount()),
 		emit.F(hh.GetSampleSum()), decode(hh.PositiveSpan, hh.PositiveDelta), decode(hh.NegativeSpan, hh.NegativeDelta), emit.L(cum))
@@ -145,13 +160,14 @@ func genCfg(r *emit.Rng) cfg {
 	if r.Chance(1, 2) {
 		c.classic = []float64{1, 16, 256}
 	}
+	c.maxEx = []int{0, 1, 2, 2, 3, -1}[r.Intn(6)]
 	return c
 }
 
 func mk(c cfg) prometheus.Histogram {
 	return prometheus.NewHistogram(prometheus.HistogramOpts{Name: "h", Buckets: c.classic,
 		NativeHistogramBucketFactor: c.factor, NativeHistogramZeroThreshold: c.zt, NativeHistogramMaxBucketNumber: c.maxB,
-		NativeHistogramMaxZeroThreshold: c.maxZT, NativeHistogramMinResetDuration: 0})
+		NativeHistogramMaxZeroThreshold: c.maxZT, NativeHistogramMinResetDuration: 0, NativeHistogramMaxExemplars: c.maxEx})
 }
 
 func caseSx(kind int, c cfg, obs []obsRec, scr []scrapeRec, final string, flags int) string {
@@ -181,7 +197,7 @@ func runC05(c *cli.Ctx) error {
 				if t == 0 && r.Chance(1, 2) || r.Chance(1, 6) {
 					progs[t] = append(progs[t], op{write: true})
 				} else {
-					progs[t] = append(progs[t], op{v: genValue(r)})
+					progs[t] = append(progs[t], op{v: genValue(r), ex: r.Chance(1, 3)})
 				}
 			}
 		}
@@ -207,7 +223,7 @@ func runC05(c *cli.Ctx) error {
 						}
 						scr[t] = append(scr[t], scrapeRec{expo: s, inv: inv, res: vsched.Now()})
 					} else {
-						h.Observe(o.v)
+						observe(h, o)
 						obs[t] = append(obs[t], obsRec{v: o.v, inv: inv, res: vsched.Now()})
 					}
 				}
@@ -314,13 +330,13 @@ func runC05(c *cli.Ctx) error {
 				if r.Chance(1, 5) {
 					progs[t] = append(progs[t], op{write: true})
 				} else {
-					progs[t] = append(progs[t], op{v: genValue(r)})
+					progs[t] = append(progs[t], op{v: genValue(r), ex: r.Chance(1, 3)})
 				}
 			}
 		}
 		v := prometheus.VerifC04New(prometheus.HistogramOpts{Name: "h", Buckets: conf.classic,
 			NativeHistogramBucketFactor: conf.factor, NativeHistogramZeroThreshold: conf.zt, NativeHistogramMaxBucketNumber: conf.maxB,
-			NativeHistogramMinResetDuration: time.Hour}, time.Unix(1000, 0))
+			NativeHistogramMinResetDuration: time.Hour, NativeHistogramMaxExemplars: conf.maxEx}, time.Unix(1000, 0))
 		obs := make([][]obsRec, nthreads)
 		scr := make([][]scrapeRec, nthreads)
 		bodies := make([]func(), nthreads+1)
@@ -340,7 +356,11 @@ func runC05(c *cli.Ctx) error {
 						v.Write(&m)
 						scr[t] = append(scr[t], scrapeRec{expo: expoOf(&m), inv: inv, res: vsched.Now()})
 					} else {
-						v.Observe(o.v)
+						if o.ex {
+							v.ObserveWithExemplar(o.v, exLabels)
+						} else {
+							v.Observe(o.v)
+						}
 						obs[t] = append(obs[t], obsRec{v: o.v, inv: inv, res: vsched.Now()})
 					}
 				}
@@ -437,8 +457,10 @@ func runC05(c *cli.Ctx) error {
 		panicked := int32(0)
 		for t := 0; t < nobs; t++ {
 			vals := make([]float64, 60)
+			exs := make([]bool, 60)
 			for i := range vals {
 				vals[i] = genValue(r)
+				exs[i] = r.Chance(1, 3)
 			}
 			wg.Add(1)
 			go func() {
@@ -449,9 +471,9 @@ func runC05(c *cli.Ctx) error {
 					}
 				}()
 				<-start
-				for _, v := range vals {
+				for i, v := range vals {
 					inv := atomic.AddInt64(&clock, 1)
-					h.Observe(v)
+					observe(h, op{v: v, ex: exs[i]})
 					res := atomic.AddInt64(&clock, 1)
 					mu.Lock()
 					allObs = append(allObs, obsRec{v: v, inv: inv, res: res})
@@ -503,6 +525,107 @@ func runC05(c *cli.Ctx) error {
 		mu.Lock()
 		w.Add(caseSx(1, conf, allObs, allScr, final, flags), true, fmt.Sprintf("observers:%d", nobs), fmt.Sprintf("maxbuckets:%d", conf.maxB))
 		mu.Unlock()
+		if stuck {
+			w.Extra["stopped_after_hang_at_run"] = it
+			break
+		}
+	}
+	if err := w.Flush(); err != nil {
+		return err
+	}
+	if _, hungBefore := w.Extra["stopped_after_hang_at_run"]; hungBefore {
+		return nil
+	}
+	// ---- (c) the default timer: MinResetDuration is set, the clock is injected but afterFunc is the real
+	// time.AfterFunc. The injected clock crosses the reset boundary between the now() calls of one limit
+	// enforcement (so the delay handed to the timer is <= 0) or shortly after. Resets drop observations: only
+	// self-consistency and liveness are demanded (kind 2).
+	w = emit.NewWriter(c.Out, "C05", "default-timer")
+	for it := 0; it < 60*c.Scale; it++ {
+		conf := genCfg(r)
+		conf.maxZT = 0
+		base := time.Unix(1_700_000_000, 0)
+		var armed, calls int64
+		cross := int64(1 + r.Intn(4)) // the now() call (after arming) from which on the reset is due
+		nowFn := func() time.Time {
+			if atomic.LoadInt64(&armed) == 0 {
+				return base
+			}
+			if atomic.AddInt64(&calls, 1) < cross {
+				return base.Add(time.Hour - time.Nanosecond)
+			}
+			return base.Add(time.Hour + time.Second)
+		}
+		h := prometheus.VerifC05NewClock(prometheus.HistogramOpts{Name: "h", Buckets: conf.classic,
+			NativeHistogramBucketFactor: conf.factor, NativeHistogramZeroThreshold: conf.zt, NativeHistogramMaxBucketNumber: conf.maxB,
+			NativeHistogramMinResetDuration: time.Hour, NativeHistogramMaxExemplars: conf.maxEx}, nowFn)
+		nops := 6 + r.Intn(10)
+		ops := make([]op, nops)
+		for i := range ops {
+			if r.Chance(1, 5) {
+				ops[i] = op{write: true}
+			} else {
+				ops[i] = op{v: math.Ldexp(1, 4*(i%8)-8+r.Intn(3)), ex: r.Chance(1, 3)} // sparse: soon over the limit
+				if r.Chance(1, 6) {
+					ops[i].v = genValue(r)
+				}
+			}
+		}
+		armAt := r.Intn(nops)
+		var clock int64
+		var obs []obsRec
+		var scr []scrapeRec
+		panicked := int32(0)
+		done := make(chan struct{})
+		go func() {
+			defer close(done)
+			defer func() {
+				if e := recover(); e != nil {
+					atomic.StoreInt32(&panicked, 1)
+				}
+			}()
+			for i, o := range ops {
+				if i == armAt {
+					atomic.StoreInt64(&armed, 1)
+				}
+				inv := atomic.AddInt64(&clock, 1)
+				if o.write {
+					s, p := scrape(h)
+					if p {
+						atomic.StoreInt32(&panicked, 1)
+					}
+					scr = append(scr, scrapeRec{expo: s, inv: inv, res: atomic.AddInt64(&clock, 1)})
+				} else {
+					observe(h, o)
+					obs = append(obs, obsRec{v: o.v, inv: inv, res: atomic.AddInt64(&clock, 1)})
+				}
+			}
+		}()
+		flags := 0
+		stuck := false
+		select {
+		case <-done:
+		case <-time.After(5 * time.Second):
+			stuck = true
+			flags |= 8
+		}
+		final := emit.Tup(emit.I(0), emit.F(0), emit.I(0), emit.I(0), emit.F(0), emit.L(nil), emit.L(nil), emit.L(nil))
+		if !stuck {
+			time.Sleep(2 * time.Millisecond) // let an immediately due timer callback run
+			var hung bool
+			final, hung = scrapeWithWatchdog(h)
+			if hung {
+				stuck = true
+				flags |= 8
+			}
+		}
+		if panicked != 0 {
+			flags |= 4
+		}
+		if stuck {
+			obs, scr = nil, nil // still owned by the stuck goroutine
+		}
+		w.Add(caseSx(2, conf, obs, scr, final, flags), len(obs) >= 3, fmt.Sprintf("cross-at-now-call:%d", cross), fmt.Sprintf("maxbuckets:%d", conf.maxB))
 		if stuck {
 			w.Extra["stopped_after_hang_at_run"] = it
 			break
